@@ -7,6 +7,8 @@ package vconsensus
 import (
 	"fmt"
 	"math/rand/v2"
+	"os"
+	"strconv"
 
 	"github.com/NethermindEth/juno/consensus/starknet"
 	"github.com/NethermindEth/juno/consensus/tendermint"
@@ -15,6 +17,14 @@ import (
 	"github.com/NethermindEth/juno/utils/log"
 	"github.com/NethermindEth/juno/verifh/lib"
 )
+
+// VERIF_C12_TRACE=<validator index>: print every event delivered to that validator (debug aid for replays)
+var traceNode = func() int {
+	if v, err := strconv.Atoi(os.Getenv("VERIF_C12_TRACE")); err == nil {
+		return v
+	}
+	return -1
+}()
 
 type SM = tendermint.StateMachine[starknet.Value, starknet.Hash, starknet.Address]
 
@@ -235,15 +245,16 @@ type sim struct {
 	decRound map[types.Height]types.Round
 	// byzantine proposers re-send their first proposal of a round instead of a new one
 	consistentProposer bool
-	seen     map[types.Height][]uint64 // value ids proposed at a height (adversary's alphabet)
-	hash     uint64
-	steps    int
-	violated bool
-	suppressed int
-	trace    [128]event
-	ntrace   int
-	st       stats
-	byzProps map[[2]int64]msg // (h,r) -> first proposal a byzantine proposer sent
+	seen               map[types.Height][]uint64 // value ids proposed at a height (adversary's alphabet)
+	hash               uint64
+	steps              int
+	violated           bool
+	started            bool
+	suppressed         int
+	trace              [128]event
+	ntrace             int
+	st                 stats
+	byzProps           map[[2]int64]msg // (h,r) -> first proposal a byzantine proposer sent
 	// set when a byzantine proposer sent two different proposals for one (h,r)
 	byzProposalEquivocation bool
 }
@@ -280,6 +291,10 @@ func newSim(r *lib.Run, idx int, c *config, rng *rand.Rand) *sim {
 }
 
 func (s *sim) start() {
+	if s.started {
+		return
+	}
+	s.started = true
 	for _, i := range s.c.correct {
 		nd := s.nodes[i]
 		s.handle(nd, msg{kind: kStart, h: nd.h}, nd.sm.ProcessStart(0))
@@ -369,6 +384,16 @@ func (s *sim) deliver(to int, m msg) {
 		})
 	}
 	s.st.delivered++
+	if traceNode >= 0 && to == traceNode {
+		out := ""
+		for _, a := range acts {
+			out += fmt.Sprintf(" %T", a)
+			if t, ok := a.(*actions.ScheduleTimeout); ok {
+				out += fmt.Sprintf("%v", *t)
+			}
+		}
+		fmt.Printf("TRACE step=%d v%d(h%d r%d) <- %s =>%s\n", s.steps, to, nd.h, nd.round, m, out)
+	}
 	s.handle(nd, m, acts)
 }
 
